@@ -186,6 +186,8 @@ pub fn mk_coin(cov: Address, value: u128, denom: Denom, data: &[u8]) -> CoinData
 }
 
 /// minimum fee of `tx` at multiplier m as the transaction format defines it (workload construction only)
+/// workload construction only (the specification computes its own minimum fee).  A panic of the weigher here must not take the
+/// driver down: the transaction is then submitted with fee 0 and the same panic is observed, as data, inside the recorded call.
 pub fn min_fee(tx: &Transaction, m: u128) -> u128 {
-    tx.base_fee(m, 0, |c| melvm::covenant_weight_from_bytes(c)).0
+    std::panic::catch_unwind(std::panic::AssertUnwindSafe(|| tx.base_fee(m, 0, |c| melvm::covenant_weight_from_bytes(c)).0)).unwrap_or(0)
 }
